@@ -5,7 +5,7 @@ ROOT = os.path.dirname(os.path.abspath(__file__))
 BASE = "cd /repo && GOFLAGS=-mod=mod GOPROXY=off go test -vet=off -count=1 -timeout 25m ./..."
 NOTE = ("Trusted: Coq 8.16.1 kernel and vm_compute (no native_compute); no axioms (every Print Assumptions is 'Closed under the global "
         "context'); the go2v translator; the Go harness/oracle; Go toolchain and third-party libraries. See DESIGN.md section 7.")
-SOURCE_COMMITS = ["def0a59 fix: lowest-index ACS selection treats index 0 as a real index", "69b9887 fix: accept xs:boolean \"1\" for isDefault"]
+SOURCE_COMMITS = []  # hook commits in /repo (none so far: the harness uses the public API only)
 CLAIMED = {
  "C16": dict(ref="5 C16", technique="Rocq/Coq proof about go2v-generated Gallina of GetAcsUrlAndBindingForResponse + exhaustive correspondence",
    text="C16_bridge/_refines/_deterministic/_member are proved for all lists about the Gallina function go2v regenerates from sso.go on every run; "
